@@ -122,8 +122,42 @@ def task_identify(pr, repo):
         pr.explore(ex, thunk, 'identify_non_covalently_coupled_groups prot=%s' % prot)
 
 
+def task_container_search(pr, repo):
+    """CF: ConformationContainer.find_non_covalently_coupled_groups leaves exactly the marks the analysis made (symmetric, also
+    towards groups that are discarded from the results) and sets the container flag iff some group has a partner."""
+    ex = Executor(repo)
+    CCn = 'propka.conformation_container.ConformationContainer'
+    fi = repo.func(CCn + '.find_non_covalently_coupled_groups')
+    pr.under_contract(fi)
+    Gc = repo.cls('propka.group.Group')
+    for layout in ('none coupled', 'pair', 'pair, one partner discarded from the results'):
+        def thunk(ex, ctx, layout=layout):
+            third = record('third', Gc, label='N+    1 A', titratable=True, non_covalently_coupled_groups=[], coupled_titrating_group=None)
+            gs = [record('g%d' % i, Gc, label='GRP %d' % i, titratable=True, non_covalently_coupled_groups=[],
+                         coupled_titrating_group=None) for i in range(3)]
+            if 'discarded' in layout:
+                gs[1].attrs['coupled_titrating_group'] = third
+
+            def analysis(ex_, ctx_, fi_, a, k, so):
+                if layout != 'none coupled':
+                    gs[0].attrs['non_covalently_coupled_groups'].append(gs[1])
+                    gs[1].attrs['non_covalently_coupled_groups'].append(gs[0])
+            ex.contracts[N + '.identify_non_covalently_coupled_groups'] = analysis
+            conf = record('conf', repo.cls(CCn), groups=list(gs), non_covalently_coupled_groups=False,
+                          parameters=record('P', None, remove_penalised_group=1))
+            ex.call_function(fi, [], {'verbose': False}, self_obj=conf)
+            l0, l1, l2 = [g.attrs['non_covalently_coupled_groups'] for g in gs]
+            want = layout != 'none coupled'
+            ok = (any(x is gs[1] for x in l0) == want and any(x is gs[0] for x in l1) == want and len(l2) == 0
+                  and len(l0) == (1 if want else 0) and len(l1) == (1 if want else 0))
+            ctx.oblige('CF[%s]: the marks made by the analysis are kept as they are - A on B <=> B on A, whether or not a partner is '
+                       'discarded from the results; container flag <=> some group has a partner' % layout,
+                       And(ok, Sym(to_bool(conf.attrs['non_covalently_coupled_groups'])) == Sym(to_bool(want))))
+        pr.explore(ex, thunk, 'find_non_covalently_coupled_groups ' + layout)
+
+
 def run(pr, repo):
-    pr.parallel([(C02.task_swap, ()), (C02.task_swap_once, ()), (task_involution, ()), (task_couple, ()), (task_identify, ()),
+    pr.parallel([(C02.task_swap, ()), (C02.task_swap_once, ()), (task_involution, ()), (task_couple, ()), (task_identify, ()), (task_container_search, ()),
                  (C02.task_render, ())])
     pr.assumptions += ['A-REAL: after the swap back the determinant LIST ORDER differs, so float sums may differ in the last ulp; '
                        '"undone exactly" is proved for the multisets and over the reals, and monitored to 1e-9 in floats',
